@@ -51,6 +51,10 @@ RULE = ("hist: 5 fixed histories (the deliver / restart / deliver program of fin
         "positions; the walk must yield exactly the non-empty mailboxes of the ordered-map oracle, the scan must remove exactly the expired "
         "messages of ALL mailboxes. The harness's own views (state before/after a reopen, live-vs-fresh) come from separate freshly "
         "constructed store objects; the object under test is never walked by the harness. "
+        "NAMES: the pool of the histories holds 7 plain names (two sharing the level-2 directory, one more the level-1 directory) and 13 names as the "
+        "storage.Store interface accepts them: 'Support-Desk', 'ALICE' next to 'alice' (two mailboxes), 'bob+tag', 'carol@Example.COM', 'two words', "
+        "'dot.' next to 'dot', non-ASCII, invalid UTF-8, 'a/b', a NUL byte, a 230-byte name — the file store only ever hashes the name, it refuses "
+        "none of them (checked on the clean tree); the ordered map keys by the name as given. "
         "big: restart with LARGE on-disk structures — one mailbox of n messages with nto recipients each (the index entry holds them: 12 x 4000 "
         "recipients = an index.gob of about 1.4 MiB, 4 x 600 = about 70 KiB; thorough also about 4 MiB, 300 x 120 under cap 500, bodies of 1 MiB "
         "and 32 MiB), listed through the live object, through a fresh file.New (must be equal), and again after a MarkSeen + delivery + reopen; "
